@@ -852,6 +852,8 @@ class OneToOne(dict):
     def copy(self):
         return self.__class__(self)
 
+    __copy__ = copy
+
     def pop(self, key, default=_MISSING):
         if key in self:
             dict.__delitem__(self.inv, self[key])
